@@ -50,7 +50,7 @@ DownloadRow(r, s, t) ==
     /\ Chk(ReadInsideOnly(r.reads), r, "ReadInsideOnly")
     /\ Chk(ReadOnly(s, t), r, "DownloadReadOnly")
     /\ Chk(r.events = 0 /\ r.queued = <<>>, r, "DownloadQueuesNothing")
-    /\ Chk((r.cls = "plain" /\ r.ext = "pcap" /\ r.name \in DOMAIN s.inside)
+    /\ Chk((r.cls = "plain" /\ r.ext = "pcap" /\ r.name \in DOMAIN s.inside /\ s.inside[r.name] # "0:e3b0c44298fc1c14")   \* (not an empty file)
              => (Ok(r.status) /\ \E i \in DOMAIN r.reads : r.reads[i].z = "inside" /\ r.reads[i].n = r.name),
            r, "ConformsServe")
 
